@@ -43,6 +43,7 @@ structure Entry where
   idx : Nat          -- which flow
   fresh : Bool       -- ghost: the flow had no backup when start_replay prepared it
   pre : Cur          -- ghost: its state right before start_replay prepared it
+  bk : Cur := pre    -- ghost: the backup the flow carries from that moment on (`pre` itself if it had none: `fresh`)
   deriving DecidableEq, Repr
 
 inductive Phase where | taken | sent
@@ -118,7 +119,7 @@ def prepare (s : St) (i : Nat) : St :=
     let b := match f.backup with | none => f.cur | some b => b
     { s with
       fs := s.fs.set i { f with cur := { f.cur with resp := false, err := false, marked := true }, backup := some b },
-      queue := s.queue ++ [{ ticket := s.next, idx := i, fresh := f.backup.isNone, pre := f.cur }],
+      queue := s.queue ++ [{ ticket := s.next, idx := i, fresh := f.backup.isNone, pre := f.cur, bk := b }],
       next := s.next + 1 }
 
 def startOne (s : St) (i : Nat) : St := if check s i = none then prepare s i else s
